@@ -36,6 +36,10 @@ THRESH = (0, 1, 5, -3, 2.5, 10)
 
 def gen_leaf(rng, fam):
     ch = rng.choice
+    if fam == 'num' and rng.random() < 0.04:
+        return {'op': ch(('empty', 'nonempty'))}      # a length condition on a number: the predicate raises, which is a failed condition
+    if fam == 'len' and rng.random() < 0.04:
+        return {'op': ch(('positive', 'nonneg', 'finite'))}
     if fam == 'num':
         k = ch(('positive', 'negative', 'nonneg', 'nonpos', 'finite', 'val_range', 'val_range', 'val_range', 'user'))
         if k == 'val_range':
@@ -59,9 +63,11 @@ def gen_leaf(rng, fam):
         if k == 'user':
             return {'op': 'user', 'fn': ch(('truthy', 'boom', 'always', 'never', 'returns_obj'))}
         return {'op': k}
-    k = ch(('shape', 'broadcastable', 'shape', 'user', 'positive', 'nonneg', 'val_range'))
-    if k in ('positive', 'nonneg'):
-        return {'op': k}
+    k = ch(('shape', 'broadcastable', 'shape', 'user', 'positive', 'nonneg', 'val_range', 'empty', 'nonempty', 'len_range'))
+    if k in ('positive', 'nonneg', 'empty', 'nonempty'):
+        return {'op': k}        # Empty / NonEmpty / len_range on an array count its first axis, whatever its truth value would be
+    if k == 'len_range':
+        return {'op': 'len_range', 'min': ch((None, 0, 1, 2)), 'max': ch((1, 2, 3))}
     if k == 'val_range':
         return {'op': 'val_range', 'min': ch((None, 0, 1)), 'max': ch((2.5, 10))}
     if k == 'user':
